@@ -29,7 +29,7 @@ i=0
 for p in $props; do
   one_prop $p &
   i=$((i+1))
-  if [ $((i % 4)) -eq 0 ]; then wait; fi
+  if [ $((i % ${PAR:-4})) -eq 0 ]; then wait; fi
 done
 wait
 {
